@@ -9,6 +9,7 @@ def run(chk):
     chk.trust("python semantics of the stated subset as encoded by pyvc (DESIGN 2.3)")
     chk.trust("z3 5.1.0")
     batcher.check_collect(chk, "C05")
+    batcher.size_function_contract(chk, "C05")
     batcher.check_consumer(chk, "C05")
     bounded_conformance(chk)
 
